@@ -73,6 +73,12 @@ def int_eval(t, atoms):
         return -a if t[1] == '-' else a
     if tag == 'call' and T.dotted(t[1]) in ('int', 'bool') and len(t[2]) == 1:
         return int_eval(t[2][0], atoms)
+    if tag == 'call' and T.dotted(t[1]) in ('min', 'max', 'abs') and t[2] and not t[3]:
+        items = t[2][0][1] if (len(t[2]) == 1 and t[2][0][0] in ('tuple', 'list')) else t[2]
+        vals = [int_eval(x, atoms) for x in items]
+        if any(v is None for v in vals):
+            return None
+        return {'min': min, 'max': max, 'abs': lambda v: abs(v[0])}[T.dotted(t[1])](vals)
     if tag == 'cmp':
         r = bool_eval(t, atoms)
         return None if r is None else int(r)
